@@ -49,6 +49,12 @@ type clOp struct {
 	MsgsCut, MsgsD   int
 	AgeCut, AgeD     int
 	Compact          bool `json:"compact,omitempty"`
+	// Fault > 0 (clean): before the clean proper, one Clean() runs while the log
+	// file of a non-active segment (selector Fault-1) has been closed behind the
+	// segment's back, so that deleting that segment fails, as on a flaky disk;
+	// the fault is then removed and the clean proper must succeed and leave
+	// exactly the expected segments, in memory and on disk
+	Fault int `json:"fault,omitempty"`
 }
 
 type clCase struct {
